@@ -467,6 +467,64 @@ def f_epub_many_chapters(n):
     return "epub", bio.getvalue(), u
 
 
+class _Blanks:
+    """File object yielding ``head`` and then blanks up to ``size`` bytes (so that a big TAR member never exists in memory)."""
+
+    def __init__(self, size, head=b""):
+        self.left, self.head = size, head
+
+    def read(self, n=-1):
+        n = self.left if n is None or n < 0 else min(n, self.left)
+        out = (self.head[:n] + b" " * max(0, n - len(self.head)))[:n]
+        self.head = self.head[n:]
+        self.left -= n
+        return out
+
+
+class _Switch:
+    """Write-only file object in front of whichever gzip member is open at the moment."""
+
+    def __init__(self, target):
+        self.target = target
+
+    def write(self, b):
+        return self.target.write(b)
+
+
+def targz_big_member(big, spelling="single", head=b"qo00001z "):
+    """A .tar.gz of small.txt, big.txt (``big`` bytes: ``head`` + blanks), after.txt, written in a stream (peak memory of the
+    builder: a few 100 KB).  ``spelling``: "single" - one gzip member (control); "multi-member" - RFC 1952 concatenation of two
+    gzip members, cut in front of the last TAR entry (cat a.gz b.gz, bgzip, appending writers): the trailer's ISIZE then
+    describes only the small last member; "forged-isize" - one gzip member whose ISIZE field says 1024."""
+    import gzip
+    import tarfile
+    bio = io.BytesIO()
+    gz = gzip.GzipFile(fileobj=bio, mode="wb", compresslevel=6, mtime=0)
+    sw = _Switch(gz)
+    with tarfile.open(fileobj=sw, mode="w|", format=tarfile.PAX_FORMAT) as t:
+        def add(name, size, fileobj):
+            ti = tarfile.TarInfo(name)
+            ti.size, ti.mtime = size, 1704164646
+            t.addfile(ti, fileobj)
+        add("small.txt", 15, io.BytesIO(b"qa00001z small\n"))
+        add("big.txt", big, _Blanks(big, head))
+        if spelling == "multi-member":
+            gz.close()
+            sw.target = gz = gzip.GzipFile(fileobj=bio, mode="wb", compresslevel=6, mtime=0)
+        add("after.txt", 15, io.BytesIO(b"qa00002z after\n"))
+    gz.close()
+    data = bio.getvalue()
+    if spelling == "forged-isize":
+        data = data[:-4] + struct.pack("<I", 1024)
+    return data
+
+
+def f_targz_multi_member_gzip(n):
+    # n MiB of blanks in one TAR member (above the per-member limit: to be skipped, not inflated into memory), ~n KB on disk
+    d = targz_big_member(n * MIB, "multi-member")
+    return "tar.gz", d, len(d)
+
+
 def f_html_many_paragraphs(n):
     d = b"<html><body>" + b"".join(b"<p>para %d</p>" % i for i in range(n)) + b"</body></html>"
     return "html", d, len(d)
@@ -489,6 +547,7 @@ FAMILIES = {
     "html-colspan-rowspan": (f_html_colspan, [2_000_000, 4_000_000, 8_000_000, 16_000_000], "count"),
     "docx-gridspan": (f_docx_gridspan, [2_000_000, 4_000_000, 8_000_000, 16_000_000], "count"),
     "xlsx-declared-dimension": (f_xlsx_declared_dimension, [100, 200, 400, 800], "count"),
+    "tar.gz-multi-member-gzip": (f_targz_multi_member_gzip, [16, 32, 64], "count"),
     "docx-deep-nested-tables": (f_docx_deep_tables, [40, 80, 160, 320], "size"),
     "docx-entity-expansion": (f_docx_entity_bomb, [4, 6, 8, 10], "count"),
     "docx-entity-many-references": (f_docx_entity_refs, [500, 1_500, 3_500], "count"),
@@ -667,6 +726,10 @@ def work_limit(case):
     which = case["which"]
     out = {"which": which, "label": case["label"]}
     import gc
+    if case.get("configure"):
+        # the public, process-global configuration call first: every documented cap that is not the configured one stays where it is
+        from sharepoint2text.parsing.extractors.archive_extractor import configure_archive_extraction
+        configure_archive_extraction(**case["configure"])
     if which == "read_file":
         with tempfile.TemporaryDirectory(prefix="verif-c12-") as td:
             p = os.path.join(td, "f.txt")
@@ -715,11 +778,15 @@ def work_limit(case):
         from vlib.gen import archives
         big = case["member_size"]
         tok = b"qo00001z "
-        members = [{"name": "small.txt", "data": b"qa00001z small\n"}, {"name": "big.txt", "data": tok + b"0" * (big - len(tok))}, {"name": "after.txt", "data": b"qa00002z after\n"}]
-        if case.get("hardlink"):
-            # a hard-link entry (its own size field is 0) with a supported extension pointing at the oversize member
-            members.insert(2, {"name": "data/copy.html", "type": "hardlink", "link": "big.txt"})
-        data = archives.build(case["layout"], members)
+        if case["layout"].startswith("tar.gz-"):
+            data = targz_big_member(big, case["layout"][7:].replace("-gzip", ""), tok)      # streamed: the builder's own peak stays small
+        else:
+            members = [{"name": "small.txt", "data": b"qa00001z small\n"}, {"name": "big.txt", "data": tok + b"0" * (big - len(tok))}, {"name": "after.txt", "data": b"qa00002z after\n"}]
+            if case.get("hardlink"):
+                # a hard-link entry (its own size field is 0) with a supported extension pointing at the oversize member
+                members.insert(2, {"name": "data/copy.html", "type": "hardlink", "link": "big.txt"})
+            data = archives.build(case["layout"], members)
+            del members
         tmp = tempfile.mkdtemp(prefix="verif-c12-")
         os.environ["TMPDIR"] = tmp
         tempfile.tempdir = tmp
@@ -729,7 +796,7 @@ def work_limit(case):
         fsaudit.arm()
         texts = []
         try:
-            for r in obs.extractor("zip")(io.BytesIO(data), "dir/a" + archives.ext_of(case["layout"])):
+            for r in obs.extractor("zip")(io.BytesIO(data), "dir/a" + (".tar.gz" if case["layout"].startswith("tar.gz-") else archives.ext_of(case["layout"]))):
                 texts.append(r.get_full_text()[:40])
             out["outcome"] = "ok"
         except Exception as e:
@@ -789,6 +856,20 @@ def main(run):
         limits.append({"part": "limit", "which": "member-limit", "layout": layout, "member_size": 10 * MIB, "label": f"{layout} member of 10MiB", "expect": "extracted"})
     for layout in ("tar", "tar.gz"):
         limits.append({"part": "limit", "which": "member-limit", "layout": layout, "member_size": 10 * MIB + 1, "hardlink": True, "label": f"{layout} hard link to a member of 10MiB+1", "expect": "skipped"})
+    # a .tar.gz whose gzip trailer does not describe the stream: RFC 1952 concatenation (ISIZE = size of the last gzip member) / forged ISIZE
+    for layout in ("tar.gz-multi-member-gzip", "tar.gz-forged-isize", "tar.gz-single"):
+        limits.append({"part": "limit", "which": "member-limit", "layout": layout, "member_size": 10 * MIB + 1, "label": f"{layout} member of 10MiB+1", "expect": "skipped"})
+    limits.append({"part": "limit", "which": "member-limit", "layout": "tar.gz-multi-member-gzip", "member_size": 10 * MIB, "label": "tar.gz-multi-member-gzip member of 10MiB", "expect": "extracted"})
+    # the same caps after the public configuration call: only the configured cap (per-member memory budget) may move
+    for mem in (32 * MIB, 1 * MIB):
+        cfg = {"max_memory_size": mem}
+        lab = f" after configure_archive_extraction(max_memory_size={mem // MIB}MiB)"
+        limits.append({"part": "limit", "which": "7z-size", "size": 100 * MIB + 1, "configure": cfg, "label": "7z size 100MiB+1" + lab, "expect": "too-large"})
+        limits.append({"part": "limit", "which": "7z-size", "size": 100 * MIB, "configure": cfg, "label": "7z size 100MiB" + lab, "expect": "not-too-large"})
+        limits.append({"part": "limit", "which": "read_file", "limit": None, "size": 100 * MIB + 1, "sparse": True, "configure": cfg, "label": "default limit,size=100MiB+1" + lab, "expect": "too-large"})
+    limits.append({"part": "limit", "which": "member-limit", "layout": "zip-deflated", "member_size": 1 * MIB + 1, "configure": {"max_memory_size": MIB}, "label": "zip-deflated member of 1MiB+1 after configure_archive_extraction(max_memory_size=1MiB)", "expect": "skipped"})
+    limits.append({"part": "limit", "which": "member-limit", "layout": "zip-deflated", "member_size": 1 * MIB, "configure": {"max_memory_size": MIB}, "label": "zip-deflated member of 1MiB after configure_archive_extraction(max_memory_size=1MiB)", "expect": "extracted"})
+    limits.append({"part": "limit", "which": "member-limit", "layout": "zip-deflated", "member_size": 10 * MIB + 1, "configure": {"max_memory_size": 32 * MIB}, "label": "zip-deflated member of 10MiB+1 after configure_archive_extraction(max_memory_size=32MiB)", "expect": "extracted"})
     series = {}
     for case, ob in pool.run_cases("checks.c12:work", cases + limits, deadline_s=300, rlimit_as=3 * 2**30, fresh_worker_per_case=True):
         rep = {"case": case}
@@ -816,11 +897,11 @@ def main(run):
             exp = case["expect"]
             ok = (exp == "too-large" and oc == "too-large") or (exp == "accepted" and oc.startswith("accepted")) or (exp == "not-too-large" and oc != "too-large")
             if not ok:
-                key = f"C12:limit:{case['which']}:{'accepted-above-limit' if exp == 'too-large' else 'refused-at-or-below-limit'}"
+                key = f"C12:limit:{case['which']}{'-after-configure' if case.get('configure') else ''}:{'accepted-above-limit' if exp == 'too-large' else 'refused-at-or-below-limit'}"
                 seen.append(key)
                 run.violation(key, f"{lab}: outcome {oc}, expected {exp}", rep)
         else:
-            fam = "7z" if case["layout"].startswith("7z") else case["layout"]
+            fam = ("7z" if case["layout"].startswith("7z") else case["layout"]) + ("-after-configure" if case.get("configure") else "")
             if case["expect"] == "skipped":
                 if ob.get("big_in_results"):
                     key = f"C12:limit:{fam}-member:oversize-member-produced-result"
@@ -885,7 +966,7 @@ def main(run):
     run.extras["measurements"] = table
     run.count("families_measured", sum(1 for f in table if len([r for r in table[f]]) >= 3))
     run.require("families_measured", run.counters["families_measured"], len(FAMILIES) - 1)
-    run.require("limit_probes", sum(1 for s in run.distinct if s.startswith("limit:")), 24)
+    run.require("limit_probes", sum(1 for s in run.distinct if s.startswith("limit:")), 37)
 
 
 def replay(run, doc):
